@@ -5,7 +5,7 @@ META = {
     "explanation": "Inventory of working-directory reads (CWD1), root discovery iterating [cwd, *parents] to the nearest config file "
                    "(CWD2), cwd-derived values used only for total relative rendering (CWD3), and origin classes of every filesystem "
                    "effect and subprocess cwd in CLI-reachable code: project-rooted or user-supplied, never bare-relative (CWD4).",
-    "rules": ["CWD1", "CWD2", "CWD3", "CWD4", "CWD6"],
+    "rules": ["CWD1", "CWD2", "CWD3", "CWD4", "CWD6", "GC1", "GC2", "GC3", "GC4"],
     "assumptions": ["equality of exit status/effects in general is behavioural; decided: nothing but display depends on cwd"],
     "trusted": ["ast parser", "origin classification (untraceable origins are counted as unknown, never as violations)"],
 }
@@ -13,3 +13,5 @@ META = {
 
 def run(A, rep, tier):
     fs.rule_cwd(A, rep)
+    # gc deletes exactly its candidate list (absolute paths under cond-out), never a display form relative to the cwd
+    fs.rule_gc(A, rep)
